@@ -162,12 +162,17 @@ func (c *rawScn) mkSend(kind string) (hdr, body []byte, ok bool, to, skip string
 			}
 		}
 	case "xbus":
-		if !c.cfg.P.cooked && kind == "fwd" && len(live) > 0 {
-			skip = live[c.rng.Intn(len(live))]
-			sid, _ := c.ids.ID(skip)
+		if kind == "fwd" && len(live) > 0 {
+			pick := live[c.rng.Intn(len(live))]
+			sid, _ := c.ids.ID(pick)
 			hdr = binary.BigEndian.AppendUint32(nil, sid)
+			if !c.cfg.P.cooked {
+				skip = pick // raw: the header names the origin, which is not sent to
+			} // cooked: a header on an outgoing message means nothing - every peer gets the body
 		} else if !c.cfg.P.cooked && kind == "fwdgone" {
 			hdr = binary.BigEndian.AppendUint32(nil, 0x7fffff01) // an origin that is not connected
+		} else if kind == "fwdgone" {
+			hdr = []byte{1, 2, 3, 4, 0x80, 0, 0, 9} // cooked: somebody else's routing header left on the message
 		}
 	case "xrep", "xrespondent":
 		switch {
